@@ -131,6 +131,7 @@ class Topo:
                  'cPropExit == ' + self._fn(lambda f: self._set(F[f].get('prop_exit', []))),
                  'cObeyExit == ' + self._fn(lambda f: self._set(F[f].get('obey_exit', []))),
                  'cTopicOrder == <<' + ', '.join(S(t) for t in self.topic_order) + '>>',
+                 'cBlocking == ' + self._set([f for f in self.names if F[f].get('blocking')]),
                  extra_defs,
                  '====']
         return '\n'.join(lines) + '\n'
@@ -147,6 +148,7 @@ class Topo:
                  f'  FaultKinds = {self._set(fault_kinds)}', f'  Victims = {self._set(victims)}',
                  f'  CheckC03 = {str(check_c03).upper()}',
                  '  ExitAt <- cExitAt', '  ExitKind <- cExitKind', '  PropExit <- cPropExit', '  ObeyExit <- cObeyExit',
+                 '  Blocking <- cBlocking',
                  f'SPECIFICATION {spec}']
         if view:
             lines.append('VIEW view')
@@ -212,6 +214,10 @@ class Idle(BaseException):
     pass
 
 
+class AppExit(Exception):
+    """a blocking application (OFP!Blocking) ends itself"""
+
+
 class SeededFault(RuntimeError):
     """the error a filter raises on purpose when the topology says it ends by an error (ExitKind = "error")"""
 
@@ -230,6 +236,7 @@ class SimPipeline:
         Z.time_ns = w.time_ns
         Z.sleep = w.sleep
         Z.ZMQ_POLL_TIMEOUT = poll_ms
+        w.tick_ns = poll_ms * 1_000_000
         Mm.POLL_TIMEOUT_MS = poll_ms
         Fm.POLL_TIMEOUT_MS = poll_ms
         Z.ZMQ_CONN_TIMEOUT = (topo.conn_ticks * poll_ms) if topo.conn_ticks else 10 ** 9
@@ -361,7 +368,36 @@ class SimPipeline:
                 cls.run(cfg, sig_stop=False, prop_exit=pol(d.get('prop_exit', ())), obey_exit=pol(d.get('obey_exit', ())))
             except (Idle, SeededFault):
                 pass
-        t = self.world.spawn(f, fn)
+
+        def app():
+            """an application that drives MQ itself, with the blocking calls (timeout = None): OFP!Blocking"""
+            Fm, Mm, run = self.Fm, self.Mm, self
+            a = object.__new__(cls)                   # process() of the simulated filter, none of the Filter machinery
+            srcs = [Fm.Filter.parse_topics(s) for s in cfg['sources']] if cfg.get('sources') else None
+            a.mq = Mm.MQ(srcs, cfg.get('outputs'), f, srcs_balance=bool(cfg.get('sources_balance')),
+                         srcs_low_lat=cfg.get('sources_low_latency'), outs_balance=bool(cfg.get('outputs_balance')),
+                         outs_required=cfg.get('outputs_required'), outs_jpg=False, outs_metrics=False,
+                         outs_filter=cfg['outputs_filter'], mq_log=False)
+            run.filters[f] = a
+            Frame = Mm.Frame
+
+            def _exit(reason=None, exc=None):
+                raise AppExit(reason)
+            a.exit = _exit
+            try:
+                while True:
+                    frames = a.mq.recv()
+                    out = cls.process(a, frames)
+                    if callable(out):
+                        out = (lambda o: lambda: None if (x := o()) is None else {'main': x} if isinstance(x, Frame) else x)(out)
+                    elif isinstance(out, Frame):
+                        out = {'main': out}
+                    a.mq.send(out)
+            except (Idle, SeededFault, AppExit):
+                pass
+            finally:
+                a.mq.destroy()
+        t = self.world.spawn(f, app if d.get('blocking') else fn)
         t.inc = self.incs[f]
         return t
 
@@ -378,7 +414,7 @@ class SimPipeline:
         lab = None
         if self.rec is not None and not new:
             k, x = act
-            lab = ({'run': 'step', 'timeout': 'timeout'}[k], x.name, 0) if isinstance(x, simzmq.Task) else (k, x.conn[0], x.conn[1])
+            lab = ({'run': 'step', 'timeout': 'timeout', 'tick': 'timeout'}[k], x.name, 0) if isinstance(x, simzmq.Task) else (k, x.conn[0], x.conn[1])
         self.world.do(act)
         if lab is not None:
             self.record(lab)
@@ -598,7 +634,10 @@ def replay(topo: Topo, behaviour, pipe: SimPipeline = None, compare=True):
         elif kind in ('step', 'timeout'):
             t = pipe.task(f)
             want = 'run' if kind == 'step' else 'timeout'
-            if t is None or t.enabled_action() != want:
+            if kind == 'timeout' and t is not None and t.enabled_action() is None and t.wait is not None \
+                    and t.wait[0] == 'poll' and topo.filters[f].get('blocking'):
+                pipe.do(('tick', t))          # OFP!SBlockTick: time passes for a sender blocked in poll(None)
+            elif t is None or t.enabled_action() != want:
                 done = False
             else:
                 pipe.do((want, t))
